@@ -252,7 +252,7 @@ fn refix_chunk(b: &mut Vec<u8>) {
 
 fn run(ctx: &mut Ctx) {
     let thorough = !ctx.quick();
-    let lens: Vec<usize> = vec![0, 1, 2, 3, 4, 15, 16, 17, 27, 28, 29, 31, 32, 35, 36, 37, 38, 55, 56, 57, 60, 79, 80, 81, 84, 243, 244, 245, 248, 4095, 4096, 4097, 65535, 65536, 65536 + 28];
+    let lens: Vec<usize> = vec![0, 1, 2, 3, 4, 15, 16, 17, 27, 28, 29, 31, 32, 35, 36, 37, 38, 55, 56, 57, 60, 79, 80, 81, 84, 243, 244, 245, 248, 4095, 4096, 4097, 65535, 65536, 65552, 65556, 65560, 65564, 65568, 131072 + 36];
     // ---- (i) random bytes in length classes, with plausible leading bytes so that the first checks pass
     let n = ctx.tier.pick(30_000, 2_000_000);
     ctx.cases("random-bytes", n, |ctx, i, rng| {
@@ -466,6 +466,44 @@ fn run(ctx: &mut Ctx) {
                 }
             }
             pwb_chunks(ctx, &l, tag);
+        }
+    });
+    // chunks of the largest legal sizes (16-bit length field at its maximum) and their neighbours
+    ctx.cases("max-size-chunks", 12, |ctx, i, rng| {
+        let plen = [65_524usize, 65_528, 65_529, 65_531, 65_532, 65_533, 65_534, 65_535, 32_768, 32_767, 16_384, 65_530][i as usize];
+        let board = *rng.pick(&PWB_BOARDS);
+        let c = enc::Chunk { device_id: pwb_device_id(&board.1), packet_sequence: 1, channel_sequence: 2, channel_id: rng.below(4) as u8, flags: 1, chunk_id: 0, payload: rng.bytes(plen) };
+        let b = c.encode();
+        chunk(ctx, &b);
+        ctx.count("chunks with payload >= 16 KiB decoded");
+        for extra in [4usize, 8, 12] {
+            // whole zero words appended, both CRCs consistent
+            let mut x = b[..b.len() - 4].to_vec();
+            x.extend(vec![0u8; extra + 4]);
+            refix_chunk(&mut x);
+            chunk(ctx, &x);
+            let mut x = b.clone();
+            x.truncate(b.len() - extra);
+            refix_chunk(&mut x);
+            chunk(ctx, &x);
+        }
+        for v in [0u16, 1, 0x7FFF, 0x8000, 0xFFFC, 0xFFFD, 0xFFFE, 0xFFFF] {
+            let mut x = b.clone();
+            x[14..16].copy_from_slice(&v.to_le_bytes());
+            refix_chunk(&mut x);
+            chunk(ctx, &x);
+        }
+        // ADC packets with 16-bit-limit sample counts
+        let n = [32_767usize, 32_768, 65_534, 65_535, 65_536, 65_537, 70_000][(i % 7) as usize];
+        let mut a = Adc::simple(A16_MACS[0].1, 1, vec![i16::MIN; n]);
+        for rs in [0u16, 1, 2, 699, 65_535, (n as u16).wrapping_add(2)] {
+            a.requested_samples = rs;
+            for sup in [false, true] {
+                a.suppression = sup;
+                a.keep_bit = sup;
+                a.keep_last = if sup { 34 } else { 0 };
+                adc(ctx, &a.encode());
+            }
         }
     });
     // > 65536 chunks with repeated ids, and the maximal 65536-chunk message
